@@ -326,6 +326,11 @@ func (rm *RegistrationManager) parseRegMessage(msg []byte) ([]*DecoyRegistration
 	// Register one or both of v4 and v6 based on support specified by the client
 	var newRegs []*DecoyRegistration
 
+	// A dual-stack message yields two independent registrations. If one of them cannot be built
+	// (e.g. the generation has no subnets of that family) the other one is still valid and is kept;
+	// the error is only returned when nothing could be built.
+	var firstErr error
+
 	// if the clients address is ipv6 skip creating an ipv4 registration.
 	if parsed.GetRegistrationPayload().GetV4Support() && rm.EnableIPv4 && sourceAddr.To4() != nil {
 		reg, err := rm.NewRegistrationC2SWrapper(parsed, false)
@@ -334,21 +339,28 @@ func (rm *RegistrationManager) parseRegMessage(msg []byte) ([]*DecoyRegistration
 			if !errors.Is(err, phantoms.ErrLegacyAddrSelectBug) {
 				logger.Errorf("Failed to create registration from v4 C2S: %v", err)
 			}
-			return nil, err
+			firstErr = err
+		} else {
+			// Received new registration, parse it and return
+			newRegs = append(newRegs, reg)
 		}
-
-		// Received new registration, parse it and return
-		newRegs = append(newRegs, reg)
 	}
 
 	if parsed.GetRegistrationPayload().GetV6Support() && rm.EnableIPv6 {
 		reg, err := rm.NewRegistrationC2SWrapper(parsed, true)
 		if err != nil {
 			logger.Errorf("Failed to create registration from v6 C2S: %v", err)
-			return nil, err
+			if firstErr == nil {
+				firstErr = err
+			}
+		} else {
+			// add to list of new registrations to be processed.
+			newRegs = append(newRegs, reg)
 		}
-		// add to list of new registrations to be processed.
-		newRegs = append(newRegs, reg)
+	}
+
+	if len(newRegs) == 0 && firstErr != nil {
+		return nil, firstErr
 	}
 
 	// log decoy connection and id string if debug logging is enabled.
